@@ -37,10 +37,12 @@ func (bla *BucketLeapArray) NewEmptyBucket() interface{} {
 }
 
 func (bla *BucketLeapArray) ResetBucketTo(bw *BucketWrap, startTime uint64) *BucketWrap {
-	util.VerifYield("bla.reset.start")
-	atomic.StoreUint64(&bw.BucketStart, startTime)
+	// Clear the counters first and publish the new start time last: a concurrent reader that
+	// already sees the new start must never find the expired bucket's counts under it.
 	mb := bw.Value.Load().(*MetricBucket)
 	mb.reset()
+	util.VerifYield("bla.reset.start")
+	atomic.StoreUint64(&bw.BucketStart, startTime)
 	return bw
 }
 
